@@ -105,3 +105,12 @@ CLAIMED["C18"] = (
  "field is re-initialised by reset()/init(). Does not decide net/http's tolerance to header order/case/whitespace nor the server closing mid-handshake.",
  COMMON_NOTE,
  "DESIGN.md section 5 C18")
+
+CLAIMED["C17"] = (
+ "counting dataflow for completion callbacks through closures, generic instantiations and CHA-resolved transport interfaces; entry-family reachability of the transport-write starter with in-flight-flag idiom recognition",
+ "Static necessary-condition analysis. Decides that every callback-taking function of Stream, CodecConn and ByteBuffer (25 function/parameter summaries including closures and AsyncHandshake) discharges its "
+ "callback exactly once on every terminating path through every in-scope implementation of the transport interfaces, that the transport-write completion releases the frame and continues only "
+ "on success, and whether the function that starts transport writes is serialised by an in-flight flag or started from one entry family only. The last clause is violated on the pinned tree "
+ "(D11: read path and write path both start transport writes, unguarded) and is listed as a known finding keyed by the read family's call site. Does not decide interleavings relative to poll cycles.",
+ COMMON_NOTE,
+ "DESIGN.md section 5 C17")
